@@ -798,7 +798,7 @@ func runC04(cfg *vh.Config) error {
 		}
 		var props []genDecl
 		for i, n := 0, r.Range(2, 7); i < n; i++ {
-			gd := genProp04(r, fmt.Sprintf("f%d", i), env)
+			gd := genProp04(r, propName(r, i), env)
 			if gd.Class == "compile-error" {
 				continue // compile failures are C12's stream
 			}
